@@ -121,6 +121,8 @@ func (c04) Gen(r *simrt.Rand, idx int, tier string) *Case {
 	g.PReopen = 0.3
 	g.MaxTxn = 14
 	g.MaxSpan = 200
+	g.InexactAccrual = true
+	g.PAccrual = 0.12
 	c := &Case{Sub: "valid", Gen: &g}
 	c.J = Gen(r, g)
 	if idx%3 != 0 {
